@@ -171,7 +171,7 @@ impl Prop for C17 {
     fn n_cases(&self, tier: Tier) -> u64 {
         match tier {
             Tier::Quick => 16000,
-            Tier::Thorough => 400000,
+            Tier::Thorough => 240000,
         }
     }
 
